@@ -462,6 +462,33 @@ func senModelTie(rep *Report, r *Rng, tier, model string) {
 			if got != exp {
 				rep.Add(Disagreement{Case: fmt.Sprintf("%q", doc), Where: "sen.Parse vs rrun (" + c.kind + ")", Kind: "impl-vs-model:sen-read", Impl: got, Model: exp})
 			}
+			// the same text through the byte-at-a-time paths (one-byte reads) and through the tokenizer
+			if string(rest) == wantRest {
+				var tree any
+				switch c.kind {
+				case "elem":
+					tree = []any{want}
+				case "val":
+					tree = map[string]any{"k": want}
+				default:
+					tree = map[string]any{string(ms): int64(1)}
+				}
+				expDoc := "O " + Show(tree)
+				ones := make([]int, len(doc))
+				for k := range ones {
+					ones[k] = 1
+				}
+				for _, alt := range []struct{ where, got string }{
+					{"sen.Parser.ParseReader 1-byte reads vs rrun", senParseOutcome([]byte(doc), ones, true, false)},
+					{"sen.Tokenizer.Parse vs rrun", senTokenOutcome([]byte(doc), nil, false, false)},
+					{"sen.Tokenizer.Load 1-byte reads vs rrun", senTokenOutcome([]byte(doc), ones, true, false)},
+				} {
+					rep.Evaluations++
+					if alt.got != expDoc {
+						rep.Add(Disagreement{Case: fmt.Sprintf("%q", doc), Where: alt.where + " (" + c.kind + ")", Kind: "impl-vs-model:sen-read", Impl: alt.got, Model: expDoc})
+					}
+				}
+			}
 		}
 	}
 	rep.Count(fmt.Sprintf("sen-model:read-in-domain=%d", inDomain))
